@@ -264,16 +264,11 @@ def gen_triple(rng, fmt=None):
         for kk, v in new_recs:
             if kk == k:
                 new_data[k] = raws.get(k, "whatever " + v)
-    for k, v in new_recs:
-        # (reported, not generated: the EMPTY new value for a CDATA section surrounded by
-        # white-space — minidom drops the empty section on re-parse, the white-space around it
-        # becomes the value)
-        if v == "" and k in cdata_ref:
-            cdata_ref[k] = ("", "")
     return {"fmt": fmt, "ref_items": ref_items, "old_items": old_items,
             "ref": android_cdata(render(fmt, ref_items), ref_items, cdata_ref) if cdata_ref
             else render(fmt, ref_items), "old": old_text, "new_data": new_data,
-            "new_recs": dict(new_recs), "obsolete": obsolete, "junk": njunk}
+            "new_recs": dict(new_recs), "obsolete": obsolete, "junk": njunk,
+            "cdata_ref": {k: list(v) for k, v in cdata_ref.items()}}
 
 
 # -------------------------------------------------------------------- oracle ---
@@ -300,6 +295,31 @@ def classify(case, sig, junk=()):
                              [it[1] for it in case["ref_items"] if it[0] == "ent" and it[2] is None]):
             return "inc-wrap-valueless-define"
     return sig
+
+
+ANDROID_CDATA_EMPTY = "android-wrapped-cdata-empty-value-reads-back-whitespace"
+
+
+def classify_cdata_empty(case, got, want):
+    """listed finding: the reference string is a CDATA section surrounded by white-space, the
+    requested value is the empty string; AndroidEntity.wrap writes an empty CDATA section,
+    which minidom drops on re-parse, so the value read back is exactly the surrounding
+    white-space.  Recognised only when every entity whose value differs is of that kind."""
+    layout = case.get("cdata_ref") or {}
+    if case["fmt"] != "android" or len(got) != len(want):
+        return None
+    hit = False
+    for (gk, gv), (wk, wv) in zip(got, want):
+        if gk != wk:
+            return None
+        if gv == wv:
+            continue
+        lead, trail = layout.get(wk, ("", ""))
+        if wv == "" and lead + trail != "" and gv == lead + trail:
+            hit = True
+        else:
+            return None
+    return ANDROID_CDATA_EMPTY if hit else None
 
 
 def oracle_serialize(chk, case, ref, out_text):
@@ -329,7 +349,7 @@ def oracle_serialize(chk, case, ref, out_text):
                  {"output": out_text, "keys": [g[0] for g in got], "expected": [w[0] for w in want]})
         return
     if got != want:
-        chk.fail(classify(case, "serialize-values"), desc,
+        chk.fail(classify_cdata_empty(case, got, want) or classify(case, "serialize-values"), desc,
                  {"output": out_text, "entities": got, "expected": want})
         return
     if fmt in SPECIAL_FORMATS:
@@ -372,6 +392,9 @@ WITNESSES = [
     ("serialize-ws-fold-joins-lines", "properties", "a = A\nb = B\n", "a = la  ", {"b": "nb"}),
     ("serialize-ws-fold-ini-comment-leaves-line-start", "ini",
      "a=A\n;c\n\nb=B\n", "a=la\n\n  b=lb\n", {}),
+    ("android-wrapped-cdata-empty-value-reads-back-whitespace", "android",
+     '<?xml version="1.0" encoding="utf-8"?>\n<resources>\n'
+     '  <string name="key_3"> <![CDATA[EN_x]]> </string>\n</resources>\n', "", {"key_3": ""}),
     ("serialize-ws-fold-after-junk-joins-lines", "ftl",
      "one = One\ntwo = Two\nfour = Four\n", "one = Eins\n# c\n   junk\nfour = Vier\n",
      {"two": "two = Zwei"}),
@@ -412,6 +435,14 @@ def run_witnesses(chk, only=None):
                                  "entry of its own; with the Junk entry dropped it meets the line "
                                  "break before it and wins the folding by length: '# c' and "
                                  "'two = Zwei' end up on one line, the message is lost"})
+        if sig == "android-wrapped-cdata-empty-value-reads-back-whitespace" and text is not None:
+            vals = [e.raw_val for e in walk_bytes(name, text.encode("utf-8")) if ckind(e) == K_ENTITY]
+            if vals != [""]:
+                chk.fail(sig, {"fmt": fmt, "ref": ref_t, "old": old_t, "new_data": new_data},
+                         {"output": text, "values": vals,
+                          "why": "AndroidEntity.wrap writes the empty value into the CDATA section; "
+                                 "minidom drops an empty CDATA section when the output is parsed, "
+                                 "the white-space around it is then the string's whole content"})
         if sig == "ftl-unwrap-includes-comment" and text is not None:
             ents = [e for e in walk_bytes(name, text.encode("utf-8")) if ckind(e) == K_ENTITY]
             if [e.unwrap() for e in ents] != [new_data["k"]]:
